@@ -1,6 +1,7 @@
 (* C03 — query results do not depend on flush timing or on where data currently lives. *)
 From Coq Require Import QArith Lia.
 From Zeno Require Import Base Sort Expr ExprSpec ExprP Seq Store StoreExprP DB.
+From Zeno Require Pin PinP PinSrc Facts TiePin.
 Local Open Scope Z_scope.
 
 (* two histories with the same inserts in the same order, split between memory and disk by ANY flushes
@@ -33,6 +34,26 @@ Theorem C03_reads_accumulated_state : forall e res H evs tbq k t,
   read e res tbq evs k t = st e (points_of res k t evs).
 Proof. exact store_reads_accumulated_state. Qed.
 
+(* scans running while the row store flushes and removes old files (Model/Pin.v), with rowStore.iterate structured
+   as row_store.go has it (translated step list): on every schedule of inserts, flushes, scan starts, scan
+   continuations and removals of old files, every scan that finishes returned the points [0, n) applied when it
+   captured its snapshot - however many flushes moved them to other files meanwhile, whichever files were deleted *)
+Theorem C03_scans_unaffected_by_flushes_and_file_removal : forall ops sc from upto,
+  In sc (Pin.p_scans (Pin.prun (PinSrc.pins_atomically Facts.gen_iterate_steps) ops)) ->
+  Pin.ps_phase sc = Pin.Finished from upto -> from = 0%nat /\ upto = Pin.ps_n sc.
+Proof. rewrite TiePin.iterate_pins_atomically. exact PinP.atomic_scans_return_their_snapshot. Qed.
+
+(* ... and the remover's guard (Pin.removable) is the one in row_store.go: it looks readers up under the key scans
+   register under (translated: gen_pin_key, gen_remover_key, gen_filestore_names) *)
+Theorem C03_remover_sees_scan_registrations : TiePin.reader_keys_agree = true.
+Proof. exact TiePin.remover_sees_registrations. Qed.
+
+(* why the structure matters: registering in a critical section of its own (the code as shipped) has a schedule on
+   which a scan returns none of the points flushed before it began *)
+Theorem C03_separate_registration_refuted :
+  forallb Pin.scan_ok (Pin.p_scans (Pin.prun false PinP.lost_file_schedule)) = false.
+Proof. exact PinP.nonatomic_refuted. Qed.
+
 Example C03_nonvacuous :
   let e := EAvg (EField 1) (EConst 1) in
   let p v := {| p_vals := [(1, v)]; p_md := [] |} in
@@ -46,3 +67,6 @@ Print Assumptions C03_schedule_independent.
 Print Assumptions C03_disk_equals_mem_after_flush.
 Print Assumptions C03_split_anywhere.
 Print Assumptions C03_reads_accumulated_state.
+Print Assumptions C03_scans_unaffected_by_flushes_and_file_removal.
+Print Assumptions C03_separate_registration_refuted.
+Print Assumptions C03_remover_sees_scan_registrations.
